@@ -396,17 +396,14 @@ HSleep(h, n) ==
   /\ hpc' = [hpc EXCEPT ![h][n] = "top"]
   /\ UNCHANGED <<gvars, cvars, qvars, sig, seen, batch, sent, try, inc, evars, ovars, svars, lvars, kvars>> /\ NoLog
 
-\* manager, after a proc that sent everything: `if sig != h.sig { continue }; h.cond.Wait()' under the hook's lock
+\* manager, after a proc that sent everything: `if sig != h.sig || h.closed { continue }; h.cond.Wait()' under the
+\* hook's lock.  (Before the repair of D14 the closed flag was not looked at here: a manager whose hook was closed
+\* while it was inside proc went to sleep for ever - harmless then, but it must end before its successor opens.)
 HCheck(h, n) ==
   /\ hpc[h][n] = "check"
-  /\ hpc' = [hpc EXCEPT ![h][n] = IF Closed(h, n) \/ (seen[h][n] # sig[h][n] /\ Variant # "no_signal_recheck")
+  /\ hpc' = [hpc EXCEPT ![h][n] = IF (Closed(h, n) /\ Variant # "redefinition_overlaps")
+                                     \/ (seen[h][n] # sig[h][n] /\ Variant # "no_signal_recheck")
                                   THEN "top" ELSE "wait"]
-  /\ UNCHANGED <<gvars, cvars, qvars, sig, seen, batch, sent, try, inc, evars, ovars, svars, lvars, kvars>> /\ NoLog
-
-\* Hook.Close broadcasts: a waiting manager of an older incarnation wakes up and exits
-HClosedWake(h, n) ==
-  /\ hpc[h][n] = "wait" /\ Closed(h, n)
-  /\ hpc' = [hpc EXCEPT ![h][n] = "top"]
   /\ UNCHANGED <<gvars, cvars, qvars, sig, seen, batch, sent, try, inc, evars, ovars, svars, lvars, kvars>> /\ NoLog
 
 -----------------------------------------------------------------------------
@@ -427,14 +424,23 @@ Poke(h) ==
   /\ Log([a |-> "poke", h |-> h])
   /\ UNCHANGED <<gvars, cvars, qvars, seen, batch, sent, try, inc, ep, flips, clock, ovars, svars, lvars, kvars>>
 
-\* SETHOOK with a different definition (D14): the old manager is closed - it finishes what it is doing -
-\* and a new manager is opened at once
+\* SETHOOK with a different definition: the old manager is closed - it finishes what it is doing, re-inserts
+\* what it could not send and ends.  The manager of the new definition is opened when the old one has ended
+\* (Hook.OpenAfter).  Variant "redefinition_overlaps" (D14, the code before the repair): it is opened at once, the
+\* two managers work on the same hook name concurrently.
 Replace(h) ==
   /\ inc[h] < MaxReplace /\ wlock = 0 /\ MutexFree({h})
   /\ inc' = [inc EXCEPT ![h] = @ + 1]
-  /\ hpc' = [hpc EXCEPT ![h][inc[h] + 1] = "top"]
+  /\ hpc' = [hpc EXCEPT ![h][inc[h] + 1] = IF Variant = "redefinition_overlaps" THEN "top" ELSE "pending",
+                        ![h][inc[h]] = IF @ = "wait" THEN "top" ELSE @]      \* Hook.Close broadcasts
   /\ Log([a |-> "replace", h |-> h])
   /\ UNCHANGED <<gvars, cvars, qvars, sig, seen, batch, sent, try, evars, ovars, svars, lvars, kvars>>
+
+\* the goroutine of OpenAfter: <-prev.done; h.Open()
+HOpen(h, n) ==
+  /\ hpc[h][n] = "pending" /\ \A m \in Incs : m < n => hpc[h][m] \in {"exit", "none"}
+  /\ hpc' = [hpc EXCEPT ![h][n] = "top"]
+  /\ UNCHANGED <<gvars, cvars, qvars, sig, seen, batch, sent, try, inc, evars, ovars, svars, lvars, kvars>> /\ NoLog
 
 Tick ==
   /\ clock < MaxClock
@@ -541,7 +547,7 @@ LEval(l) ==
 ClientStep(c) == \/ PStart(c) \/ PApp(c) \/ WStart(c) \/ GStart(c) \/ CQueue(c) \/ CSignal(c)
                  \/ CSignalEarly(c) \/ CQueueLate(c) \/ CLive(c)
 SenderStep(h, n) == \/ HTop(h, n) \/ HTake(h, n) \/ HTry(h, n) \/ HSent(h, n) \/ HReinsert(h, n)
-                    \/ HSleep(h, n) \/ HCheck(h, n) \/ HClosedWake(h, n)
+                    \/ HSleep(h, n) \/ HCheck(h, n) \/ HOpen(h, n)
 SubStep(s)    == SReg(s) \/ SRecv(s) \/ SAckFirst(s) \/ SRegLate(s)
 WriterStep(s) == STake(s) \/ SWrite(s)
 EnvNext    == \/ \E e \in Eps : Flip(e)
